@@ -190,8 +190,17 @@ def main(run):
     mark = lambda x: scall(call("func", "Mark", [x]))
     keep = block([assign(("var", "items"), "=", ("math", mvar("h.SL"))), scall(call("method", "h.ShrinkSL", [])),
                   sforrange("k", "items", block([mark(("var", "k"))])), sforrange("j", "h.SL", block([mark(("const", kint(50)))]))])
+    # two rules of one call bind the SAME local name to different objects (each from its own NewC()) and read a field of it through
+    # the dotted name: each reads the field of ITS object — whatever the engine remembers about how `it.N` was resolved before
+    newc = lambda: assign(("var", "it"), "=", ("math", matom(acall(call("func", "NewC", [])))))
+    addn = lambda n: scall(call("method", "it.Add", [("const", kint(n))]))
+    own_obj = block([newc(), addn(10), addn(10)], ("expr", emath(mvar("it.N"))))
+    own_pre = [("p0", None, 50, block([newc(), addn(1), assign(("var", "seen"), "=", ("math", mvar("it.N")))])),
+               ("p1", None, 40, block([newc(), assign(("var", "seen"), "=", ("math", mk_mbin("+", mvar("it.N"), mvar("it.In.N"))))]))]
     stated_bad = stated_scenarios(run, PID, [("local-bound-to-a-slice-field-then-the-field-is-replaced", keep, [h4(), inj_func("Mark")],
-                                              {"class": "ok", "seq": [["ShrinkSL"], ["Mark", "0"], ["Mark", "1"], ["Mark", "2"], ["Mark", "3"], ["Mark", "50"]]})],
+                                              {"class": "ok", "seq": [["ShrinkSL"], ["Mark", "0"], ["Mark", "1"], ["Mark", "2"], ["Mark", "3"], ["Mark", "50"]]}),
+                                             ("same-local-name-bound-to-another-object-in-a-later-rule-then-read-through-a-dotted-name", own_obj, [inj_func("NewC")],
+                                              {"class": "ok", "ret": 20, "NewC": 3}, own_pre)],
                                   "a local keeps the value it was bound to when the injected field it was read from is replaced")
     # (B)
     scs = pool_scenarios(rng, run.tier)
